@@ -187,6 +187,28 @@ pub fn run(em: &mut Emit, thorough: bool, seed: u64) {
             emit_program(em, &format!("l.contains({})", x), &spec, "nt=1;kind=in-list");
         }
     }
+    // membership across the kinds of numbers: lists of doubles, of uints, and mixed with values of
+    // other kinds, searched for needles of every kind (x in l iff some element == x)
+    {
+        let lists: Vec<Vec<Value>> = vec![
+            vec![Value::Float(1.0)], vec![Value::String(Arc::new("x".into())), Value::Float(2.0), Value::Bool(false)],
+            vec![Value::UInt(1), Value::UInt(3)], vec![Value::Float(0.0)], vec![Value::Float(-0.0), Value::Float(f64::NAN)],
+            vec![Value::Int(1), Value::Float(1.5), Value::UInt(2), Value::Null], vec![Value::List(Arc::new(vec![Value::Float(1.0)])), Value::Float(3.0)],
+            vec![Value::Float(9007199254740993.0), Value::Int(9007199254740993), Value::UInt(18446744073709551615)],
+            (0..40).map(|i| if i == 17 { Value::Float(17.0) } else { Value::Int(100 + i) }).collect(),
+            (0..40).map(|i| Value::String(Arc::new(format!("s{}", i)))).collect(),
+        ];
+        for l in lists {
+            let spec = CtxSpec { vars: vec![("l".into(), Value::List(Arc::new(l)))], funs: vec![] };
+            for x in ["1", "1u", "1.0", "2", "2u", "2.0", "3", "3u", "0", "0u", "-0.0", "17", "17u", "17.0", "117", "'x'", "'s9'", "'s40'", "false", "null",
+                      "[1]", "[1.0]", "[1u]", "9007199254740993", "9007199254740992", "9007199254740992.0", "18446744073709551615u", "double('NaN')"] {
+                emit_program(em, &format!("{} in l", x), &spec, "nt=1;kind=in-list-kinds");
+                emit_program(em, &format!("l.contains({})", x), &spec, "nt=1;kind=in-list-kinds");
+                emit_program(em, &format!("contains(l, {})", x), &spec, "nt=1;kind=in-list-kinds");
+                emit_program(em, &format!("l.exists(e, e == {}) == ({} in l)", x, x), &spec, "nt=1;kind=in-list-kinds");
+            }
+        }
+    }
     // strings: indexing by byte offset
     for s in ["", "abc", "héllo", "😀x", "a😀"] {
         let spec = CtxSpec { vars: vec![("s".into(), Value::String(Arc::new(s.to_string())))], funs: vec![] };
